@@ -52,6 +52,7 @@ func init() {
 		"bufio.NewReader":             extBufioNewReader,
 		"(*bufio.Reader).ReadRune":    extReadRune,
 		"(*bufio.Reader).UnreadRune":  extUnreadRune,
+		"(*bufio.Reader).Reset":       extBufioReset,
 		"context.WithCancel":          extCtxWithCancel,
 		"(*grits/process.RuntimeEnvironment).HeartbeatReceiver": extHeartbeatReceiver,
 		"(*sync.Once).Do":           extOnceDo,
@@ -510,6 +511,12 @@ func extBufioNewReader(m *Machine, caller *frame, args []Value) Value {
 			}
 		}
 	}
+	if r, ok := args[0].(Iface); ok && r.T == nil {
+		// bufio.NewReader(nil): a reader without a source yet (to be Reset later)
+		cell := new(Value)
+		*cell = Struct{&runeSource{}}
+		return Ptr(cell)
+	}
 	m.unsupported("bufio.NewReader over a non-modelled reader")
 	return nil
 }
@@ -617,6 +624,31 @@ func extHeartbeatReceiver(m *Machine, caller *frame, args []Value) Value {
 		m.drain()
 	}
 	m.call(caller, token.NoPos, args[2], nil)
+	return nil
+}
+
+// (*bufio.Reader).Reset(r): read from r from now on (nil: nothing to read)
+func extBufioReset(m *Machine, caller *frame, args []Value) Value {
+	p, _ := args[0].(Ptr)
+	if p == nil {
+		m.throwRuntime("invalid memory address or nil pointer dereference")
+	}
+	st, ok := (*p).(Struct)
+	if !ok || len(st) != 1 {
+		m.unsupported("bufio.Reader.Reset on a non-modelled reader")
+	}
+	st[0] = &runeSource{}
+	if r, ok := args[1].(Iface); ok && r.T != nil {
+		if q, ok := r.V.(Ptr); ok && q != nil {
+			if qs, ok := (*q).(Struct); ok && len(qs) == 1 {
+				if src, ok := qs[0].(*runeSource); ok {
+					st[0] = src
+					return nil
+				}
+			}
+		}
+		m.unsupported("bufio.Reader.Reset over a non-modelled reader")
+	}
 	return nil
 }
 
